@@ -1,6 +1,7 @@
 import SamVerif.Model.CompileGate
 import SamVerif.Lemmas.MatchLowerBind
-import SamVerif.Model.OptKernel
+import SamVerif.Lemmas.EnumRepr
+import SamVerif.Lemmas.C03Opt
 import SamVerif.Lemmas.C03Str
 import SamVerif.Props.C07
 /-!
@@ -25,6 +26,10 @@ proved, for all inputs, are the gates the property rests on:
                                `bindings_correct/_frame/_complete` (temporaries hold the source bindings,
                                first matching alternative of an or-pattern), `iflet_correct`,
                                `let_destructure_total`.
+5. `destructure_never_traps` — model of the enum layout choice, the LIR type erasure and the guard code
+                               of `ConditionalDestructure` with the `ref.test`/`ref.cast` the wasm
+                               lowering inserts (Model/EnumRepr.lean): no illegal cast, for every layout;
+                               `variant_fits_erased_type` (full strength since the fix of C03-F7).
 -/
 namespace SamVerif.C03
 open SamVerif
@@ -78,44 +83,20 @@ open SamVerif.Opt
 
 /-- **fold_total** (full strength since fix 3b705a0; before it `MAX + 1`, `MIN / -1`, `MIN % -1`,
 `1 << 40` aborted the compiler): `evaluate_bin_op` never aborts, for all operators and operands. -/
-theorem fold_total (op : Op) (a b : Int) : evalImpl op a b ≠ .panic := by
-  cases op <;> simp only [evalImpl] <;> (try split) <;> simp
+theorem fold_total (op : Op) (a b : Int) : evalImpl op a b ≠ .panic := C03Opt.evalImpl_total op a b
 example : evalImpl .add 2147483647 1 = .val (-2147483648) := by decide
 example : evalImpl .div (-2147483648) (-1) = .nofold := by decide
 
 /-- **trip_total** (full strength since fix 0934671): the trip-count closed form never aborts. -/
-theorem trip_total (g : Guard) (i0 step bound : Int) : tripCount g i0 step bound ≠ .panic := by
-  cases g <;> simp only [tripCount, tripLT] <;> (repeat' split) <;> simp
+theorem trip_total (g : Guard) (i0 step bound : Int) : tripCount g i0 step bound ≠ .panic :=
+  C03Opt.tripCount_total g i0 step bound
 example : tripCount .le 0 1 2147483647 = .unknown := by decide
 
-/- FULL STATEMENT (false on the unchanged code):
-   ∀ outer inner c1 c2, InRange c1 → InRange c2 → mergeBinary outer inner c1 c2 ≠ .panic -/
-
-/-- Witness: `(x + 1) < MIN` - the merged constant `c2 - c1` of a comparison is still computed with
-an unchecked `-` (conditional_constant_propagation.rs, `merge_binary_expression`): the dev-profile
-compiler aborts on an accepted program (finding C02-F1 = C05-F2, owned there). -/
-theorem merge_total_counterexample :
-    ¬ (∀ (outer inner : Op) (c1 c2 : Int), InRange c1 → InRange c2 →
-        mergeBinary outer inner c1 c2 ≠ .panic) := by
-  intro h
-  exact h .lt .add 1 (-2147483648) (by decide) (by decide) (by decide)
-
-/-- Side condition for `merge_binary_expression`: the merged constant of a comparison is representable. -/
-def MergeSafe (outer inner : Op) (c1 c2 : Int) : Prop :=
-  outer.isCmp = true → inner = .add → InRange (c2 - c1)
-
-/-- **merge_total_partial** -/
-theorem merge_total_partial (outer inner : Op) (c1 c2 : Int) (h : MergeSafe outer inner c1 c2) :
-    mergeBinary outer inner c1 c2 ≠ .panic := by
-  cases outer <;> simp only [mergeBinary, MergeSafe, chkM, Op.isCmp] at h ⊢ <;>
-    (first
-      | (split
-         · rename_i hi; have := h trivial hi; simp [this]
-         · simp)
-      | (split <;> simp)
-      | simp)
-
-example : MergeSafe .lt .add 1 5 := by intro _ _; decide
+/- `merge_binary_expression`: until fix 58c3f94 the merged constant `c2 - c1` of `(x + c1) cmp c2` was
+   computed with an unchecked `-` (witness `(x + 1) < MIN`: dev-profile compiler abort on an accepted
+   program, finding C02-F3); this file carried `merge_total_counterexample` + `merge_total_partial`.
+   The kernel now declines such merges.  Totality of the merger is stated in C02's file on C02's model;
+   C03 keeps the run-time tie `merge` (the real kernel must never abort) - see Lemmas/C03Opt.lean. -/
 end fold
 
 /-! ## 3. String constants in the emitted TypeScript -/
@@ -229,6 +210,29 @@ theorem bindings_complete (p : CPat) (v : Val) (d : Delta) (hb : bindsOk p = tru
     (h : execCode (lowerPat p) v = some (true, d)) : ∀ x ∈ names p, (d.lookup x).isSome = true :=
   exec_assigns p v d hb h
 
+/-! ### temporaries -/
+
+/-- **binding_temps_fresh**: the temporaries `binding_names` gives to the (distinct) source names of a
+pattern are fresh (at or above the counter, hence different from every temporary allocated before)
+and pairwise different. -/
+theorem binding_temps_fresh (ns : List Nat) (c : Nat) :
+    (∀ b ∈ allocTemps ns c, c ≤ b.2 ∧ b.2 < c + ns.length) ∧
+    ((allocTemps ns c).map (fun b => b.2)).Nodup :=
+  allocTemps_fresh_injective ns c
+
+/-- **bindings_correct_on_temps**: `bindings_correct` carried over to what the emitted code really
+assigns - the temporaries `bn x` - for any renaming that is injective on the names of the pattern
+(which `binding_temps_fresh` provides): reading the temporary of `x` after a successful test yields
+the source binding of `x`. -/
+theorem bindings_correct_on_temps (sig : Sig) (p : CPat) (t : Nat) (v : Val) (d : Delta)
+    (bn : Nat → Nat) (hinj : ∀ x ∈ names p, ∀ y ∈ names p, bn y = bn x → y = x)
+    (hty : cpatTy sig p t = true) (hb : bindsOk p = true) (hv : hasTy sig v t = true)
+    (h : execCode (lowerPat p) v = some (true, d)) :
+    ∀ x ∈ names p, (renameDelta bn d).lookup (bn x) = (srcDelta p v).lookup x := by
+  intro x hx
+  rw [lookup_rename bn x d (fun y w hm heq => hinj x hx y (exec_names p v true d hb h y w hm) heq)]
+  exact exec_binds sig p t v d hty hb hv h x
+
 /-! ### `if let` and `let` -/
 
 /-- **iflet_correct**: `if let p = e { a } else { b }` on a typed pattern and value never faults and
@@ -322,5 +326,68 @@ example : bindsOk (.or [.variant ⟨0, 1⟩ [.id 3], .variant ⟨0, 1⟩ [.id 3]
 example : lowerCrash (.tuple 1 [.wild, .wild]) = true := by decide
 example : runIfLet (lowerPat (.variant ⟨0, 1⟩ [.id 5])) (.con (some ⟨0, 0⟩) []) = .elseB := by rfl
 end matching
+
+/-! ## 5. Variant values: layout, type erasure and the casts of `ConditionalDestructure` -/
+section enumrepr
+open SamVerif.EnumRepr
+
+/-- **destructure_never_traps**: for every layout the compiler can choose for an enum (any variant
+list, any answer of `type_permit_enum_boxed_optimization`), every variant value `j` (payload of the
+right length; an unboxed payload is a pointer of its type, which `permit_payload_pointer` provides)
+and every tested tag `k`: the emitted guard code - `ref.test`, the `ref.cast` inserted for a
+`(ref eq)` local, the tag load, the `ref.cast` to the variant's sub-struct, the field loads - never
+traps (no illegal cast, no struct access on a wrong type), runs the success branch exactly when
+`j = k`, and binds exactly the payload. -/
+theorem destructure_never_traps (p : Nat → Bool) (variants : List (List Nat)) (e j k : Nat)
+    (ps : List RV) (fsj fsk : List Nat)
+    (hj : variants[j]? = some fsj) (hk : variants[k]? = some fsk) (hlen : ps.length = fsj.length)
+    (hpay : PayloadOk (layoutOf p variants) j ps) :
+    runGuard (localTy needsAny (layoutOf p variants) e) (layoutOf p variants) e k
+      (reprV (layoutOf p variants) e j ps) = if j = k then .success ps else .fail :=
+  destructure_safe_aux p variants e j k ps fsj fsk hj hk hlen hpay
+
+/-- **variant_fits_erased_type**: every variant value has the wasm type of the locals, parameters and
+fields that hold values of its enum (`(ref eq)` when the enum is erased to `AnyPointer`, else
+`(ref $Enum)`), so storing it validates and needs no cast.  Full strength since the fix of C03-F7. -/
+theorem variant_fits_erased_type (p : Nat → Bool) (variants : List (List Nat)) (e j : Nat)
+    (ps : List RV) (fsj : List Nat) (hj : variants[j]? = some fsj)
+    (hpay : PayloadOk (layoutOf p variants) j ps) :
+    rvHasTy (reprV (layoutOf p variants) e j ps) (localTy needsAny (layoutOf p variants) e) = true :=
+  repr_fits_local_aux p variants e j ps fsj hj hpay
+
+/-- **Historical witness (finding C03-F7, fixed)**: with the erasure test of the unfixed code (only
+int31 variants count) the single-variant enum `class W(Only(P))` keeps the type `(ref $W)` while its
+value is a `P` struct: the value does not fit, and the cast the back end inserts traps
+(`illegal cast` on an accepted `match`). -/
+theorem erasure_old_counterexample :
+    let vs := layoutOf (fun _ => true) [[1]]
+    PayloadOk vs 0 [.obj (.base 1) []] ∧
+    rvHasTy (reprV vs 0 0 [.obj (.base 1) []]) (localTy needsAnyOld vs 0) = false ∧
+    refCast (.base 0) (reprV vs 0 0 [.obj (.base 1) []]) = none := by
+  refine ⟨?_, by decide, by decide⟩
+  intro f hf
+  refine ⟨.obj (.base 1) [], rfl, ?_⟩
+  have : f = 1 := by
+    have h : layoutOf (fun _ => true) [[1]] = [.unboxed 1] := by decide
+    simp only [h] at hf
+    simpa using hf.symm
+  subst this; decide
+
+/-- **permit_payload_pointer**: a typed value of a type for which
+`type_permit_enum_boxed_optimization` answers yes is represented by a pointer to a struct of that
+type - the hypothesis `PayloadOk` of the two theorems above. -/
+theorem permit_payload_pointer (tbl : Table) (lay : Layouts) (self t : Nat) (v : SV)
+    (hp : permit tbl lay self t = true) (hv : svTy tbl v t = true)
+    (hlen : ∀ vs, tbl.getD t .prim = .enum vs → (layAt lay t).length = vs.length) :
+    rvHasTy (repr lay v) (.ref (.base t)) = true :=
+  EnumRepr.permit_payload_pointer tbl lay self t v hp hv hlen
+
+-- non-vacuity: `Opt(No, Yes(P))` is [int31, unboxed], `E(A, B(int), C(P, int))` is [int31, boxed, boxed]
+example : layoutOf (fun t => t == 1) [[], [1]] = [.int31, .unboxed 1] := by decide
+example : layoutOf (fun t => t == 1) [[], [0], [1, 0]] = [.int31, .boxed [0], .boxed [1, 0]] := by decide
+example : layoutOf (fun t => t == 1) [[1], [1]] = [.boxed [1], .boxed [1]] := by decide
+example : layoutTable [.prim, .struct [0], .enum [[], [1]], .enum [[2]], .enum [[1]]] =
+    [none, none, some [.int31, .unboxed 1], some [.boxed [2]], some [.unboxed 1]] := by decide
+end enumrepr
 
 end SamVerif.C03
